@@ -75,6 +75,11 @@ def make_stubs(env):
             return False
 
         def join(self, timeout=None):
+            # a process that still has messages to hand over may be blocked in Queue.put() until somebody reads the queue:
+            # joining it without a timeout before the queue is drained is the documented multiprocessing deadlock
+            w = self.idx
+            if timeout is None and not env.exited[w] and env.ptr[w] < len(env.streams[w]):
+                raise Hang("Process.join() on a worker that still has undelivered messages (blocked in put(), nobody reads the queue)")
             return None
 
         @property
